@@ -13,8 +13,9 @@ r2=$(cd internal/tests && go test -count=1 -vet=off ./... 2>&1 | grep -v "^ok\|n
 git checkout -- go.sum go.mod internal/tests/go.sum internal/tests/go.mod 2>/dev/null
 rundemo() { if [ -x $out/demo/run.sh ]; then (cd $out/demo && ./run.sh) ; else (cd $out/demo && go test -count=1 -vet=off ./...); fi; }
 rundemo > /tmp/demo-with.$$ 2>&1; echo "DEMO with change: exit=$? $(grep -E '^(--- FAIL|FAIL|ok|PASS)' /tmp/demo-with.$$ | head -4 | tr '\n' ' ')"
-git stash -q
+# reverse and re-apply the patch (git stash is shared between worktrees and mishandles new files)
+git apply -R $out/patch.diff || echo "!! could not reverse the patch"
 rundemo > /tmp/demo-without.$$ 2>&1; echo "DEMO without change: exit=$? $(grep -E '^(--- FAIL|FAIL|ok|PASS)' /tmp/demo-without.$$ | head -4 | tr '\n' ' ')"
-git checkout -- . 2>/dev/null
-git stash pop -q && echo "patch restored"
+git checkout -- go.sum go.mod internal/tests/go.sum internal/tests/go.mod 2>/dev/null
+git apply $out/patch.diff && echo "patch restored"
 rm -f /tmp/demo-with.$$ /tmp/demo-without.$$
